@@ -24,7 +24,7 @@ import (
 var Check = &ev.Check{
 	ID:    "C07",
 	Level: "model_checking",
-	Rule: "programs: every reference graph of n<=3 definitions (named N0..N2) over kinds {typedef, struct(one optional field, optional default), const} (quick) / {typedef, struct, enum, const, service} (thorough), every definition choosing its references from " +
+	Rule: "programs: every reference graph of n<=3 definitions (named N0..N2; in multi-file layouts also with two definitions of different files sharing one bare name) over kinds {typedef, struct(one optional field, optional default), enum, const, service(optional parent, one function)}, every definition choosing its references from " +
 		"{i32, string, each definition expressible from its file (same file or an included one), list<each definition>, one undefined name; constants: int, string, each constant, each enum item}, in layouts {one file; two files f0->f1 with every assignment of definitions to files; two files including each other; diamond f0->{f1,f2}->f3}. " +
 		"schedules: for each program every map-iteration order at every `range`-over-map execution in package compile (all n! orders for n<=4 keys) with at most 1 (quick) / 2 (thorough) deviating range executions per compile, and every permutation of the definitions within each file. " +
 		"A state is a node of the choice tree (a prefix of order choices); a transition is one order choice; every execution is a run of the real compiler built from /repo's tree. " +
@@ -369,11 +369,12 @@ func variants(kind string, n int, kinds []string, thorough bool, ok func(j int) 
 	return out
 }
 
+func isTypeKind(k string) bool {
+	return k == resolve.Typedef || k == resolve.Struct || k == resolve.Enum
+}
+
 func enumerate(w *ev.W, yield func(progCase)) {
-	kindAlpha := []string{resolve.Typedef, resolve.Struct, resolve.Const}
-	if !w.Quick() {
-		kindAlpha = []string{resolve.Typedef, resolve.Struct, resolve.Enum, resolve.Const, resolve.Service}
-	}
+	kindAlpha := []string{resolve.Typedef, resolve.Struct, resolve.Enum, resolve.Const, resolve.Service}
 	for _, lay := range layouts {
 		for n := 1; n <= 3; n++ {
 			maxN := 3
@@ -412,7 +413,7 @@ func enumerate(w *ev.W, yield func(progCase)) {
 							}
 							return false
 						}
-						vs[i] = variants(kinds[i], n, kinds, !w.Quick() && n < 3, reach)
+						vs[i] = variants(kinds[i], n, kinds, n < 3, reach)
 					}
 					idx := make([]int, n)
 					for {
@@ -422,6 +423,19 @@ func enumerate(w *ev.W, yield func(progCase)) {
 							defs[i].File = as[i]
 						}
 						yield(progCase{Layout: lay.name, P: resolve.Prog{Defs: defs, NFiles: lay.nfiles, Includes: lay.includes}})
+						// the same program with two definitions of different files sharing one bare name
+						for i := 0; i < n; i++ {
+							for j := i + 1; j < n; j++ {
+								if as[i] != as[j] && (n <= 2 || !w.Quick() || (isTypeKind(kinds[i]) && isTypeKind(kinds[j]))) {
+									names := make([]int, n)
+									for k := range names {
+										names[k] = k
+									}
+									names[j] = i
+									yield(progCase{Layout: lay.name + "+samename", P: resolve.Prog{Defs: defs, NFiles: lay.nfiles, Includes: lay.includes, Names: names}})
+								}
+							}
+						}
 						k := n - 1
 						for k >= 0 {
 							idx[k]++
